@@ -4,7 +4,8 @@ PROP = dict(
     title="Match and destructuring select the first matching arm and bind correctly",
     lean_module="AbraProofs.Properties.C14",
     required_theorems=["C14_patCompare_correct", "C14_patBind_correct", "C14_let_destructuring",
-                       "C14_match_selects_first_partial", "C14_match_selects_first_counterexample"],
+                       "C14_match_takes_first_pass", "C14_match_selects_first_partial",
+                       "C14_match_selects_first_counterexample"],
     harness_bin="c14",
     mismatch_is_violation=True,
     rule="(scrutinee type, accepted arm list, value) triples over the universe of C12 (harness/src/patuniv.rs): 420 (quick) / "
@@ -32,12 +33,15 @@ PROP = dict(
                "traverse_arm_pat, handle_pat_binding, the ExprKind::Match arm loop) run on a model of the VM: for every environment, pattern "
                "of every kind, type, value, decision set and stack, the comparison code replaces the value by Bool(matches) of the selected "
                "alternative and touches nothing else (also when a product fails midway); the binding code consumes exactly the value and stores "
-               "every variable's component (match arms, let, for); for arm lists without or-patterns the whole match enters the body of the first "
-               "matching arm with its variables bound and the stack restored. Tied to /repo on every run: real programs report arm, bindings and "
+               "every variable's component (match arms, let, for); the whole match, as the code is, enters the body of the first pass whose selected "
+               "alternative matches and binds through it, stack restored (C14_match_takes_first_pass); for arm lists whose arms are or-chains "
+               "`a | b | c` of or-free alternatives (incl. arms without or-patterns) that is the first matching arm in source order, bound through "
+               "its first matching alternative. Tied to /repo on every run: real programs report arm, bindings and "
                "stack balance, compared with the model and with a Rust reference.",
-    level_note="partial: the match-level theorem (C14_match_selects_first_partial) covers arms WITHOUT or-patterns; for arms with or-patterns only the per-pass "
-               "comparison/binding theorems (for every decision set) are proved, the pass structure is covered by the tie; with two or-patterns side by side "
-               "the full statement is false on the code as it is (C14_match_selects_first_counterexample, known finding D27). VM instruction semantics are modelled, not proved.",
+    level_note="partial: C14_match_selects_first_partial covers arms that are or-chains of or-free alternatives (and arms without or-patterns); for or-patterns NESTED inside "
+               "tuple/struct/variant patterns the proved statement is C14_match_takes_first_pass (first matching pass of the arm loop), their connection to the arm's own meaning is covered "
+               "by the tie only; with two or-patterns side by side the full statement is false on the code as it is (C14_match_selects_first_counterexample, known finding D27). "
+               "VM instruction semantics are modelled, not proved.",
     technique="Lean 4 theorems (structural induction on patterns over a skip-mode stack machine) + differential correspondence against compiled programs + Rust reference oracle",
     timeout=1500,
 )
